@@ -1771,7 +1771,8 @@ pub fn c03_config(k: usize) -> (CfgSpec, Vec<String>, Vec<String>) {
             pw.push("srvpass".into());
         }
         5 => {
-            c.users.push(user(None, Some("*!*@192.168.*")));
+            // (a mask no source of the session matches: another network, or one character too many)
+            c.users.push(user(None, Some(if k / 8 % 2 == 1 { "*!*@10.0.0.??" } else { "*!*@192.168.*" })));
             un.push(uname.into());
         }
         6 => {
